@@ -150,6 +150,20 @@ func init() {
 		},
 	})
 	register(&Property{
+		ID:        "C18",
+		Technique: "static analysis: inventory and classification of all package-level state, call-graph reachability from the operation set, must-hold lockset dataflow over SSA, pool-hygiene mod-set, exactly-once return of pooled scratch headers by abstract interpretation",
+		Explain: "Decides the shared-state clauses of race freedom: (P4) every package-level variable of the library is a synchronisation primitive, never written after initialisation, written only by configuration calls, or accessed only under its mutex on every access reachable (CHA call graph; VTA in the thorough tier) from the ~3 600 exported operations (intra-procedural must-hold lockset, meet = intersection); (O6) objects recycled through the tensor pool carry no state to the next borrower; (M7) the pooled scalar scratch header of every generated tensor-scalar method is handed back to the header pool at most once on every mode path (a double return makes the pool serve one header to two goroutines); (O7) only function-local tensors are recycled. With no unsynchronised shared writes and stateless pool objects each goroutine's result is a function of its own inputs. " +
+			"Not decided: anything about actual schedules; races inside sync.Pool/channels/BLAS (trusted); read-only-operand purity of the hand-written operations (findings 13, 14, 16 of DESIGN.md are listed there, not decided by this check).",
+		Assume: []string{"locks are taken on package-level mutexes by direct calls (the repo's only idiom); interprocedural lock holding is not modelled"},
+		Run: func(rc *rules.RC) {
+			rules.P4(rc)
+			rules.O6(rc)
+			oa := rules.NewOAnalysis(rc.P)
+			rules.O7(rc, oa)
+			rules.M7(rc, 300)
+		},
+	})
+	register(&Property{
 		ID:        "C19",
 		Technique: "static analysis: interprocedural ownership analysis over go/ssa (origin tracing with fixpoint summaries returns-param / retains / writes / recycles), mod-set of the recycle function, unique-owner rule for pool-managed access patterns",
 		Explain: "A history-quantified property becomes per-site ownership invariants decided over every function: (O1,O2,O3) no exported function recycles, retains or mutates a caller's []int/Shape/[]Slice/[]bool argument, directly or through any chain of callees (summaries by fixpoint; documented sharing is a named exception table); (O6) ReturnTensor stores a zero value into every leaf field of Dense before pooling it; (O7) ReturnTensor inside the library receives only tensors created in that function, or a parameter under the not-the-reuse-tensor guard; (O8) an access pattern (whose shape/strides slices AP.zero and SetShape return to the ints pool) read out of one object is stored elsewhere only as a move or after Clone, no exported function returns such an alias, no local alias is zeroed into the pool; (T2) the lazy-transpose triple is cleared together. If no live object can reach a slice in the free list and no caller slice is kept, written or recycled, no operation history can corrupt through that channel. " +
@@ -170,6 +184,7 @@ func init() {
 		Assume: []string{"the summaries of E-level dispatch (destination = first non-scalar operand; Incr adds; Recv stores) and of storage.Copy/CopyIter/Fill, which rules K1arms/K2 check against the kernels", "sparse operands (swap) are outside the dense properties"},
 		Run: func(rc *rules.RC) {
 			rules.M2(rc, nil, 40, 900)
+			rules.M7(rc, 300)
 			rules.L0(rc, nil)
 		},
 	})
